@@ -71,7 +71,7 @@ def run(ctx):
     scen = QUICK + THOROUGH[len(QUICK):len(QUICK) + 3] if ctx.tier == "quick" else THOROUGH
     cap = 2500 if ctx.tier == "quick" else 40000
     prog = [{"op": "scenario", "a": {"size": size, "threads": th, "max_schedules": cap, "seed": ctx.seed}} for size, th in scen]
-    events = run_harness("sched", prog, os.path.join(WORK, "sched.ev.ndjson"), timeout=3000)
+    events = run_harness("sched", prog, os.path.join(WORK, "sched.ev.ndjson"), timeout=3000, ctx=ctx, one_event_per_line=False)
     summaries = [e["a"] for e in events if e["op"] == "summary"]
     events = [e for e in events if e["op"] != "summary"]
     nsched = sum(s["schedules"] for s in summaries)
